@@ -459,7 +459,7 @@ Definition exec (im : image) (i : instr) (s : mstate) : outcome :=
             | Some l =>
                 do r <- (if disc_fwd s then step_forward l cur else step_back l cur);
                 do s' <- set_reg s R_RESULT r; Ok (advance s')
-            | None => Err (EInternal "member iteration over an unknown set")   (* None.prev *)
+            | None => do s' <- set_reg s R_RESULT (VOperand OD_NULL); Ok (advance s')   (* the set vanished: exhausted *)
             end) []
   | OC_OUT =>
       match i_p0 i with
